@@ -43,3 +43,24 @@ Proof. intros pen lo hi logds per_dist H. pose proof (fit3_one_spec pen lo hi lo
 
 Example C04_example : rank_m [Fin 3; NaN; Fin 1; PInf; Fin 1] = [4; 2; 0; 3; 1]%nat.
 Proof. reflexivity. Qed.
+
+(* --- sorting again (Resort, F39): FitInfo.sort() gathers model_id by the same order as every other column, so a result in which
+   every row carries the columns of the model its index names stays that way under any sequence of sorts with any orders; the
+   unrepaired step (model_id := order) breaks it on the second call *)
+From SedV Require Import Resort.
+Theorem C04_resort_aligned : forall (B : Type) (dB : B) (base : nat -> B) order ids cols,
+  (forall i, In i order -> (i < length ids)%nat) -> aligned B base ids cols ->
+  let '(ids', cols') := resort B dB order ids cols in aligned B base ids' cols'.
+Proof. exact resort_keeps_aligned. Qed.
+Theorem C04_resort_many : forall (B : Type) (dB : B) (base : nat -> B) orders ids cols, aligned B base ids cols ->
+  Forall (fun order => Permutation order (seq 0 (length ids))) orders ->
+  let '(ids', cols') := fold_left (fun st order => resort B dB order (fst st) (snd st)) orders (ids, cols) in
+  aligned B base ids' cols' /\ Permutation ids' ids.
+Proof. exact resort_many. Qed.
+Theorem C04_unrepaired_sort_refuted :
+  let base := fun i : nat => (i * 10)%nat in
+  aligned nat base [2; 0; 1]%nat [20; 0; 10]%nat /\
+  resort nat 0%nat [1; 2; 0]%nat [2; 0; 1]%nat [20; 0; 10]%nat = ([0; 1; 2], [0; 10; 20])%nat /\
+  resort_old nat 0%nat [1; 2; 0]%nat [2; 0; 1]%nat [20; 0; 10]%nat = ([1; 2; 0], [0; 10; 20])%nat /\
+  ~ aligned nat base [1; 2; 0]%nat [0; 10; 20]%nat.
+Proof. exact resort_old_refuted. Qed.
